@@ -14,6 +14,10 @@ from onnx_ir import _core
 from onnx_ir import passes as ir_passes
 import onnx_ir.passes.common  # noqa: F401
 
+import logging
+
+logging.getLogger("onnx_ir").setLevel(logging.ERROR)
+
 from mc import common
 from mc import gen_protos as gp
 from mc.snapshot import Registry, diff, diff_kinds, function_rec, graph_rec, node_rec, value_rec
@@ -25,14 +29,15 @@ def sources(tier):
         out.append(label)
     out.append("captured_sharding@11")
     out.append("function_body_sharding@11")
+    out.append("sharded_before_shapes_known@11")
     return out
 
 
 def build_source(label):
-    want = {"captured_sharding@11": "if_with_captures@10", "function_body_sharding@11": "function_with_subgraph@10"}.get(label, label)
+    want = {"captured_sharding@11": "if_with_captures@10", "function_body_sharding@11": "function_with_subgraph@10", "sharded_before_shapes_known@11": "if_with_captures@10"}.get(label, label)
     for lab, m in gp.gen_models("quick", pairs=False):
         if lab == want:
-            if label in ("captured_sharding@11", "function_body_sharding@11"):
+            if label in ("captured_sharding@11", "function_body_sharding@11", "sharded_before_shapes_known@11"):
                 m.ir_version = 11
             model = ir.from_proto(m)
             if label == "function_body_sharding@11":
@@ -59,6 +64,19 @@ def build_source(label):
                         if o0 is not None and o0.name and (o0.shape is None or len(o0.shape) > 0):
                             n.shard(o0, configuration=cfgf, axis=0, num_shards=2)
                         n.set_pipeline_stage(cfgp, 1)
+            if label == "sharded_before_shapes_known@11":
+                # annotate while no shape is known (no dimension size can be derived), learn the shapes afterwards
+                cfgs = model.add_device_configuration("early", num_devices=2)
+                todo = []
+                for n in model.graph.all_nodes():
+                    o0 = n.outputs[0] if n.outputs else None
+                    if o0 is None or not o0.name:
+                        continue
+                    todo.append((o0, o0.shape))
+                    o0.shape = None
+                    n.shard(o0, configuration=cfgs, axis=0, num_shards=2)
+                for k, (o0, old_shape) in enumerate(todo):
+                    o0.shape = old_shape if old_shape is not None and len(old_shape) > 0 and k % 2 else ir.Shape([8, 4])
             if label == "captured_sharding@11":
                 # nodes inside the If bodies are sharded on values captured from the main graph
                 cfg = model.add_device_configuration("mesh", num_devices=2)
@@ -671,7 +689,7 @@ def main(tier):
     srcs = sources(tier)
     if tier == "quick":
         keep = ("baseline@10", "if_with_captures@10", "nested_if_initializer_in_body@10", "function_with_attributes@10", "device_configurations@11",
-                "value_info_everywhere@10", "nested_types_on_values@10", "all_attribute_kinds@10", "output_is_initializer_and_input@10", "quantization_annotations@10", "captured_sharding@11", "device_configuration_in_function_body@10", "function_with_subgraph@10", "function_body_sharding@11")
+                "value_info_everywhere@10", "nested_types_on_values@10", "all_attribute_kinds@10", "output_is_initializer_and_input@10", "quantization_annotations@10", "captured_sharding@11", "device_configuration_in_function_body@10", "function_with_subgraph@10", "function_body_sharding@11", "sharded_before_shapes_known@11")
         srcs = [s for s in srcs if s in keep]
     for label in srcs:
         model = build_source(label)
